@@ -316,3 +316,5 @@ def run(ctx: Ctx) -> None:
     c12_fresh.run_closed(ctx)  # R-C12.8
     c12_fresh.run_args(ctx)
     c12_fresh.run_against(ctx)
+    c12_fresh.run_transform(ctx)
+    c12_fresh.run_flags(ctx)
